@@ -290,8 +290,23 @@ func c13elfAnswer(raw []byte) (ans string, ef *elf.File, ok bool) {
 	if err != nil {
 		return "reject", nil, true
 	}
+	ascii := func(n string) bool {
+		for i := 0; i < len(n); i++ {
+			if n[i] < 0x21 || n[i] > 0x7e || n[i] == ';' {
+				return false
+			}
+		}
+		return true
+	}
 	for _, s := range ef.Sections {
-		if strings.HasPrefix(s.Name, ".zdebug") || !c13nameOK(s.Name) {
+		if strings.HasPrefix(s.Name, ".zdebug") || !ascii(s.Name) {
+			return "", nil, false
+		}
+	}
+	var ys []elf.Symbol
+	catch(func() { ys, _ = ef.Symbols() })
+	for _, y := range ys {
+		if !ascii(y.Name) {
 			return "", nil, false
 		}
 	}
@@ -600,6 +615,21 @@ func (e *c13env) decodeStream(cap int) {
 			var co *insts.KernelCodeObject
 			if f := catch(func() { co = insts.LoadKernelCodeObjectFromBytes(raw, s.Name) }); f != "" || co == nil {
 				continue
+			}
+			// the plain getters and Info(): same values as the fields, no panic
+			r.Checked("getters")
+			m := co.KernelCodeObjectMeta
+			var info string
+			if f := catch(func() { info = m.Info() }); f != "" ||
+				m.GetEnableSgprPrivateSegmentBuffer() != m.EnableSgprPrivateSegmentBuffer || m.GetEnableSgprDispatchPtr() != m.EnableSgprDispatchPtr ||
+				m.GetEnableSgprQueuePtr() != m.EnableSgprQueuePtr || m.GetEnableSgprKernargSegmentPtr() != m.EnableSgprKernargSegmentPtr ||
+				m.GetEnableSgprDispatchID() != m.EnableSgprDispatchID || m.GetEnableSgprFlatScratchInit() != m.EnableSgprFlatScratchInit ||
+				m.GetEnableSgprPrivateSegmentSize() != m.EnableSgprPrivateSegmentSize || m.GetEnableSgprGridWorkgroupCountX() != m.EnableSgprGridWorkgroupCountX ||
+				m.GetEnableSgprGridWorkgroupCountY() != m.EnableSgprGridWorkgroupCountY || m.GetEnableSgprGridWorkgroupCountZ() != m.EnableSgprGridWorkgroupCountZ ||
+				!bytes.Equal(co.InstructionData(), co.Data) ||
+				!strings.Contains(info, fmt.Sprintf("Kernarg Segment Byte Size: %d\n", m.KernargSegmentByteSize)) ||
+				!strings.Contains(info, fmt.Sprintf("Group Segment Byte Size: %d\n", m.GroupSegmentByteSize)) {
+				r.Failf("C13.getters", rel+":"+s.Name, "a Get… method, InstructionData() or Info() disagrees with the fields (fault %q)", f)
 			}
 			d, arch := gcn3, "0"
 			if isCDNA {
